@@ -37,6 +37,8 @@ def run(ctx: Ctx) -> None:
     numeric.rule_return_shape(ctx, SRC, "state_to_graph")
     rule_table_convert(ctx)
     shapes.rule_graph_build(ctx)
+    shapes.rule_canon_compare(ctx)
+    shapes.rule_node_order(ctx)
     numeric.rule_gf2round(ctx, armed=[(SRC, "_graph_finder")],
                           advisory=[(SRC, "_phase_correction"), (LCE, "_solution_basis_finder"), (LCE, "_vec_solution_finder")])
     ctx.floor("flow.missing-return", 25)
@@ -90,6 +92,8 @@ def rule_table_convert(ctx: Ctx) -> None:
 
 
 KNOCKOUTS = [
+    Knockout("canon-compare", SRC, sub_once("    new_tab = canonical_form(run_circuit(tab1.copy(), gate_list))", "    new_tab = run_circuit(tab1.copy(), gate_list)"), "canon.compare", "new_tab"),
+    Knockout("node-order-sorted", SRC, sub_once("    mapping = dict(zip(graph_data.nodes(), range(0, n_qubits)))", "    mapping = dict(zip(sorted(graph_data.nodes()), range(0, n_qubits)))"), "node.order", "_graph_to_density_pure"),
     Knockout("graph-build-zero-state", SRC, sub_once("    final_state = dmf.create_n_plus_state(n_qubits)", "    final_state = dmf.create_n_product_state(n_qubits, dmf.state_ketz0())"), "graph.build", "_graph_to_density_pure"),
     Knockout("graph-build-cz-x", "graphiq/backends/density_matrix/functions.py", sub_once("cz = get_two_qubit_controlled_gate(n_qubits, control_qubit, target_qubit, sigmaz())", "cz = get_two_qubit_controlled_gate(n_qubits, control_qubit, target_qubit, sigmax())"), "graph.build", "apply_cz"),
     Knockout("graph-build-blocks", SRC, sub_once("    return StabilizerTableau([np.eye(n_nodes), adj_matrix])", "    return StabilizerTableau([adj_matrix, np.eye(n_nodes)])"), "graph.build", "_graph_to_stabilizer_pure"),
